@@ -226,7 +226,12 @@ class RefSim:
                             env[nm] = self.charac(state, pop, nm)
                         else:
                             env[nm] = vals[pop][nm]
-                    v = f * expr.evaluate(fn, env)
+                    try:
+                        v = f * expr.evaluate(fn, env)
+                    except expr.Ambiguous as e:
+                        from .runner import Discard
+
+                        raise Discard("a parameter function sits on a discontinuity within rounding distance (comparison / floor): the reference value is not determined")
                 else:
                     v = datainterp.series_value(self.data["q"][name][pop], t) * f
                 if active and (name, pop) in covouts:
